@@ -174,7 +174,7 @@ def _judge(snap, res, exc, graph, target_outcomes, target_interventions, surroga
         kernel.violation("C06", "vocabulary-trso", f"transport estimand {res} for {case}: {bad[:3]}", case=case,
                          mech=classify("vocabulary"))
     live = len(ref.V) - sum(1 for v in ref.V if mon_id.cards_hint().get(v.name) == 1)
-    if not CONFIG["semantic"] or live > CONFIG["max_nodes_semantic"] or len(ref.V) > 16:
+    if not CONFIG["semantic"] or live > CONFIG["max_nodes_semantic"] or len(ref.V) > 200:
         return
     check_family(res, ref, X, Y, diff, case)
 
